@@ -1613,6 +1613,29 @@ int32_t tls13ParseServerHello(ssl_t *ssl,
         return SSL_NO_TLS_1_3;
     }
 
+    /* RFC 8446, 4.1.4: the cipher suite of a HelloRetryRequest must be one
+       we offered, and the ServerHello that follows must repeat it
+       ("clients MUST check that the cipher suite supplied in the ServerHello
+       is the same as that in the HelloRetryRequest and otherwise abort the
+       handshake with an "illegal_parameter" alert"). */
+    if (ssl->tls13IncorrectDheKeyShare)
+    {
+        if (sslGetCipherSpec(ssl, cipher) == NULL)
+        {
+            ssl->err = SSL_ALERT_ILLEGAL_PARAMETER;
+            return MATRIXSSL_ERROR;
+        }
+        ssl->tls13HrrCipherSuite = (uint16_t)cipher;
+    }
+    else if (ssl->tls13HrrCipherSuite != 0 &&
+            ssl->tls13HrrCipherSuite != cipher)
+    {
+        psTraceErrr("ServerHello changes the cipher suite of the " \
+                "HelloRetryRequest\n");
+        ssl->err = SSL_ALERT_ILLEGAL_PARAMETER;
+        return MATRIXSSL_ERROR;
+    }
+
     rc = tls13ParseServerHelloExtensions(ssl, pb);
     if (rc < 0)
     {
